@@ -348,7 +348,7 @@ def linearizable(maxsize, init, calls, final, displog):
                     continue
                 cx, cy = calls[x], calls[y]
                 # x finished before y was called (strictly) => x before y
-                if cx["ret"] < cy["call"] or (cx["tid"] == cy["tid"] and cx["j"] < cy["j"]):
+                if (cx["tid"] != cy["tid"] and cx["ret"] <= cy["call"]) or (cx["tid"] == cy["tid"] and cx["j"] < cy["j"]):
                     if pos[x] > pos[y]:
                         ok = False
                         break
@@ -682,6 +682,50 @@ def _watch_pm():
 
 D_OPS = [("cfu", 0), ("cfu", 1), ("clear",)]
 
+# every RecentlyUsedContainer created while this check runs gets the scheduler-aware lock (a manager that swaps
+# its container for a new one would otherwise bring a real RLock the scheduler cannot see)
+import urllib3._collections as _ucoll  # noqa: E402
+_ucoll.RLock = sched.SchedRLock
+
+
+def linearizable_d(got, final_cache):
+    """is there an order of the completed calls, consistent with real time (X before Y when X returned before Y was
+    called), under which a sequential get-or-create cache (cfu: the cached pool, else a NEW pool that is cached;
+    clear: empties) returns exactly the observed pools and ends in the observed cache?  No eviction here: callers
+    use it only when num_pools >= number of keys."""
+    ops = [(g["call"], g["ret"], g["op"], id(g["pool"]) if g["pool"] is not None else None, g["tid"], g["j"]) for g in got]
+    n = len(ops)
+
+    def before(x, y):
+        # program order inside a thread, else real time (x returned no later than y was called)
+        return (x[4] == y[4] and x[5] < y[5]) or (x[4] != y[4] and x[1] <= y[0])
+
+    def rec(done, cache, created):
+        if len(done) == n:
+            return cache == final_cache
+        for i in range(n):
+            if i in done:
+                continue
+            # real-time order: every op that returned before ops[i] was called must already be placed
+            if any(j not in done and before(ops[j], ops[i]) for j in range(n) if j != i):
+                continue
+            _, _, op, pid = ops[i][:4]
+            if op[0] == "clear":
+                if rec(done | {i}, {}, created):
+                    return True
+            else:
+                k = op[1]
+                if k in cache:
+                    if cache[k] == pid and rec(done | {i}, cache, created):
+                        return True
+                elif pid not in created:
+                    c2 = dict(cache)
+                    c2[k] = pid
+                    if rec(done | {i}, c2, created | {pid}):
+                        return True
+        return False
+    return rec(frozenset(), {}, frozenset())
+
 
 def exec_d(cfg, prefix):
     num_pools, programs = cfg
@@ -750,6 +794,14 @@ def part_d(task):
         for key, pool in cached.items():
             if pool.pool is None:
                 acc.violation("cached-pool-closed", {"part": "d"}, case, observed=key.key_host, expected="open")
+        if num_pools >= len(by_key) and all(r is not None and r[0] == "ret" for r in s.results().values()):
+            hosts = {ORIGINS[i].split("://")[1]: i for i in range(len(ORIGINS))}
+            final = {hosts[k.key_host]: id(p) for k, p in cached.items()}
+            if not linearizable_d(s.got, final):
+                acc.violation("get-or-create-not-atomic", {"part": "d", "num_pools": num_pools, "clear": has_clear}, case,
+                              observed={"calls": [(g["tid"], g["op"], g["call"], g["ret"], id(g["pool"]) % 100000 if g["pool"] is not None else None) for g in s.got],
+                                        "final_cache": {k: v % 100000 for k, v in final.items()}},
+                              expected="some real-time-consistent order of the calls explains the returned pools and the final cache")
         # never two live entries for one key: container keys are unique by construction; check the
         # returned pool for the last call on each key is the cached one when nothing evicted it
         outcomes.add((tuple(sorted((g["tid"], g["j"], id(g["pool"]) if g["pool"] is not None else 0) for g in s.got)) and
